@@ -166,3 +166,56 @@ Theorem C04_int32_cast_matters :
   exists st m, ~ eons_fit st /\ validate_shares st m = GAccept /\ ~ wf_shares st m.
 Proof. exists cast_state, cast_msg. exact cast_matters. Qed.
 Print Assumptions C04_int32_cast_matters.
+
+(* ------------------------------------------------------------------------------------- *)
+(* Second tie to the source. Generated/GossipValidateFuns.v is rewritten from the repository on
+   every run of this check: medley.Uint64ToInt64Safe, Queries.GetKeyperIndex, checkKeyShares,
+   checkKeysErrors and the ValidateMessage of the key-share, key and eon-public-key handlers,
+   statement by statement (guards in source order, integer casts as wrap-arounds, slice indices
+   with a panic outside the slice, which error class of which lookup is tested where); the
+   translator refuses any statement it does not understand. With the queries, decoders and
+   pairing checks instantiated from the model state ([mo st]), and for DKG results with fewer
+   than 2^63 public key shares (a Go slice), the translated validators decide what the model's
+   validators decide - the same class of verdict (accept / reject / panic) for every state and
+   message; hence the characterisation above holds for the translated function itself. *)
+From Verif Require Import Generated.GossipValidateFuns Proofs.GossipValidateFuns.
+Theorem C04_translated_validators_agree : forall st,
+  dkg_small st ->
+  (forall m, same_class (gen_validate_shares (mo st) m) (validate_shares st m)) /\
+  (forall m, same_class (gen_validate_keys (mo st) m) (validate_keys st m)) /\
+  (forall gst m, same_class (gen_validate_eonpk (mo (g_core gst)) m) (validate_eonpk gst m)).
+Proof.
+  intros st H. split; [|split].
+  - intros m. apply gen_validate_shares_agrees. exact H.
+  - intros m. apply gen_validate_keys_agrees. exact H.
+  - intros gst m. apply gen_validate_eonpk_agrees.
+Qed.
+Print Assumptions C04_translated_validators_agree.
+
+Theorem C04_translated_shares_iff : forall st m,
+  eons_fit st -> max_fits st -> dkg_small st ->
+  (gen_validate_shares (mo st) m = GAccept <-> wf_shares st m) /\
+  gen_validate_shares (mo st) m <> GPanic.
+Proof.
+  intros st m Hf Hm Hs. destruct (C04_shares_iff st m Hf Hm) as [Hiff Hnp].
+  pose proof (gen_validate_shares_agrees st m Hs) as Hc. split.
+  - rewrite (same_class_accept _ _ Hc). exact Hiff.
+  - intros E. apply Hnp. apply (same_class_panic _ _ Hc). exact E.
+Qed.
+Print Assumptions C04_translated_shares_iff.
+
+(* the translated validator, run on the witness message and on its reversal *)
+Example C04_translated_nonvacuous :
+  dkg_small ex_state /\
+  gen_validate_shares (mo ex_state) ex_shares = GAccept /\
+  gen_validate_shares (mo ex_state) (mkSharesMsg 7 1 2 (rev (s_shares ex_shares)) SxNone)
+  = GReject (GS RKeysUnordered).
+Proof.
+  split; [|split; vm_compute; reflexivity].
+  intros z e n t H. unfold dkg_for_config in H. cbn [ex_state c_eons c_dkg] in H.
+  destruct (max_eon _ z) as [e'|]; [|discriminate].
+  cbn [zlookup] in H.
+  repeat match type of H with
+         | (if ?c then _ else _) = _ => destruct c
+         end; try discriminate; inversion H; subst; vm_compute; reflexivity.
+Qed.
